@@ -1,6 +1,7 @@
 // C15 harness: Householder_Matrix, QR_Decomposition, Eigenvalues, Eigensystem, Eigenvectors, and Determinant / Inverse
 // as used by the inverse iteration (see checks/C15.py for the case grammar)
 #include "common.hpp"
+#include <cmath>
 #include "libphysica/Linear_Algebra.hpp"
 namespace libphysica
 {
@@ -75,6 +76,115 @@ static void handler(vh::Reader& r, vh::Out& o)
 		for(auto& v : es2.second)
 			put_vec(o, v);
 		o.i((M == M0) ? 1 : 0);
+	}
+	else if(op == "session")
+	{
+		// several calls on one or two Matrix objects with in-place modifications between them (grammar: checks/C15.py, _gen_session).
+		// A plain mirror of the values the caller wrote is kept beside the objects; the last token says whether both objects still hold them.
+		Matrix A(M), B(M);
+		Matrix *cur = &A, *oth = &B;
+		std::vector<std::vector<double>> ma(M.Rows(), std::vector<double>(M.Columns())), mb;
+		for(unsigned int i = 0; i < M.Rows(); i++)
+			for(unsigned int j = 0; j < M.Columns(); j++)
+				ma[i][j] = M[i][j];
+		mb = ma;
+		std::vector<std::vector<double>>*mc = &ma, *mo = &mb;
+		unsigned int n = M.Rows();
+		long steps	   = r.integer();
+		for(long s = 0; s < steps; s++)
+		{
+			std::string w = r.word();
+			if(w == "sys")
+			{
+				auto es = Eigensystem(*cur);
+				o.fl(es.first);
+				o.i(es.second.size());
+				for(auto& v : es.second)
+					put_vec(o, v);
+			}
+			else if(w == "vecs")
+			{
+				auto vs = Eigenvectors(*cur);
+				o.i(vs.size());
+				for(auto& v : vs)
+					put_vec(o, v);
+			}
+			else if(w == "vals")
+				o.fl(Eigenvalues(*cur));
+			else if(w == "qr")
+			{
+				std::pair<Matrix, Matrix> qr = QR_Decomposition(*cur);
+				put_mat(o, qr.first);
+				put_mat(o, qr.second);
+			}
+			else if(w == "swap")
+			{
+				long i = r.integer(), j = r.integer();
+				for(unsigned int c = 0; c < n; c++)
+				{
+					std::swap((*cur)[i][c], (*cur)[j][c]);
+					std::swap((*mc)[i][c], (*mc)[j][c]);
+				}
+				for(unsigned int c = 0; c < n; c++)
+				{
+					std::swap((*cur)[c][i], (*cur)[c][j]);
+					std::swap((*mc)[c][i], (*mc)[c][j]);
+				}
+			}
+			else if(w == "dswap")
+			{
+				long i = r.integer(), j = r.integer();
+				std::swap((*cur)[i][i], (*cur)[j][j]);
+				std::swap((*mc)[i][i], (*mc)[j][j]);
+			}
+			else if(w == "neg")
+			{
+				for(unsigned int i = 0; i < n; i++)
+					for(unsigned int j = 0; j < n; j++)
+					{
+						(*cur)[i][j] = -(*cur)[i][j];
+						(*mc)[i][j]	 = -(*mc)[i][j];
+					}
+			}
+			else if(w == "scale")
+			{
+				double f = std::ldexp(1.0, (int) r.integer());
+				for(unsigned int i = 0; i < n; i++)
+					for(unsigned int j = 0; j < n; j++)
+					{
+						(*cur)[i][j] = (*cur)[i][j] * f;
+						(*mc)[i][j]	 = (*mc)[i][j] * f;
+					}
+			}
+			else if(w == "transp")
+			{
+				*cur = cur->Transpose();
+				std::vector<std::vector<double>> t(*mc);
+				for(unsigned int i = 0; i < n; i++)
+					for(unsigned int j = 0; j < n; j++)
+						(*mc)[i][j] = t[j][i];
+			}
+			else if(w == "copy")
+			{
+				*oth = *cur;
+				*mo	 = *mc;
+			}
+			else if(w == "other")
+			{
+				std::swap(cur, oth);
+				std::swap(mc, mo);
+			}
+			else
+			{
+				o.w("HARNESSERR unknown_step");
+				return;
+			}
+		}
+		bool same = true;
+		for(unsigned int i = 0; i < n; i++)
+			for(unsigned int j = 0; j < n; j++)
+				same = same && (*cur)[i][j] == (*mc)[i][j] && (*oth)[i][j] == (*mo)[i][j];
+		o.i(same ? 1 : 0);
 	}
 	else if(op == "rayleigh")
 	{
